@@ -637,12 +637,66 @@ Fixpoint field_names (f : fld) : pyval :=
 Inductive xevent :=
 | XE (e : event)
 | XCross (i j : nat) (p : list sel) (k : str)
+| XClone (i j : nat) (p : list sel)     (* cfg_j<p>.load_tree(cfg_i<p>.to_tree())  (also through dumps/loads) *)
 | XRead.
+
+(* Config.to_tree / Field.to_basic for the kinds the stream clones (every container comes out
+   fresh): plain data, a configuration becomes the dict of its values *)
+Fixpoint tree_val (d : nat) (h : heap) (v : val) {struct d} : option (heap * val) :=
+  match v with
+  | VScalar _ => Some (h, v)
+  | VRef l =>
+      match d with
+      | O => None
+      | S d' =>
+          match lookup h l with
+          | Some (OList _ items) =>
+              match maph (tree_val d') h items with
+              | Some (h1, vs) => Some (alloc h1 (OList None vs))
+              | None => None
+              end
+          | Some (OTuple items) =>
+              match maph (tree_val d') h items with
+              | Some (h1, vs) => Some (alloc h1 (OTuple vs))
+              | None => None
+              end
+          | Some (ODict _ es) =>
+              match maph (lift_snd (tree_val d')) h es with
+              | Some (h1, es') => Some (alloc h1 (ODict None es'))
+              | None => None
+              end
+          | Some (OCfg _ data _) =>
+              match maph (lift_snd (tree_val d')) h data with
+              | Some (h1, data') => Some (alloc h1 (ODict None (map (fun kv => (PStr (fst kv), snd kv)) data')))
+              | None => None
+              end
+          | None => None
+          end
+      end
+  end.
 
 Definition xstep (deep : bool) (d : nat) (sigma : fld) (w : world) (x : xevent) : world :=
   match x with
   | XE e => wstep deep d sigma w e
   | XRead => w
+  | XClone i j p =>
+      match nth_error (wroots w) i, nth_error (wroots w) j with
+      | Some ri, Some rj =>
+          match nav (wh w) (VRef ri) p with
+          | Some v =>
+              match tree_val d (wh w) v with
+              | Some (h1, VRef tl) =>
+                  match nav h1 (VRef rj) p, lookup h1 tl with
+                  | Some (VRef cl), Some (ODict _ es) =>
+                      {| wh := load_entries deep d h1 cl (str_entries es); wroots := wroots w |}
+                  | _, _ => w
+                  end
+              | _ => w
+              end
+          | None => w
+          end
+      | _, _ => w
+      end
   | XCross i j p k =>
       match nth_error (wroots w) i, nth_error (wroots w) j with
       | Some ri, Some rj =>
